@@ -220,6 +220,33 @@ def stagger_spec(ports, rng, n, with_qnodeos):
     return {"kind": "stagger", "name": "default", "nodes": nodes, "ports": ports.pool(3 * n + 6), "steps": steps, "limits": LIMITS}
 
 
+def random_history(rng, n):
+    """a random start/stop history: double starts, double stops, stops racing a start that did not wait, programs in between"""
+    steps, up = [], False
+    for _ in range(rng.randrange(4, 8)):
+        r = rng.random()
+        if not up or r < 0.2:
+            steps.append({"op": "start", "wait": rng.random() < 0.5})
+            up = True
+            if rng.random() < 0.7:
+                steps.append({"op": "ready"})
+                if rng.random() < 0.6:
+                    steps.append({"op": "program"})
+                if n >= 2 and rng.random() < 0.4:
+                    a, b = rng.sample(NAMES[:n], 2)
+                    steps.append({"op": "epr", "pair": [a, b], "number": rng.choice([1, 2, 3])})
+            elif rng.random() < 0.5:
+                steps.append({"op": "sleep", "s": round(rng.uniform(0.0, 1.5), 2)})
+        else:
+            steps.append({"op": "stop"})
+            up = False
+            if rng.random() < 0.2:
+                steps.append({"op": "stop"})
+    if up:
+        steps.append({"op": "stop"})
+    return steps + cycle(rng, n, rng.random() < 0.5, epr=False)
+
+
 def build_scenarios(ctx, ports):
     rng = ctx.rng
     sc = []
@@ -240,8 +267,11 @@ def build_scenarios(ctx, ports):
         # start twice (second call must leave the live processes alone), stop twice
         sc.append(("net2b", net_spec(ports, 2, [{"op": "start", "wait": True}, {"op": "start", "wait": False}, {"op": "ready"},
                                                 {"op": "program"}, {"op": "stop"}, {"op": "stop"}] + cycle(rng, 2, True))))
-        for k, n in enumerate([1, 2, 2, 3, 4, 5]):
+        for k, n in enumerate([1, 2, 2, 3, 4, 5, 3, 4, 5, 2]):
             sc.append(("stag%d_%d" % (n, k), stagger_spec(ports, rng, n, k % 2 == 0)))
+        for k in range(8):
+            n = rng.randrange(1, 6)
+            sc.append(("hist%d_%d" % (n, k), net_spec(ports, n, random_history(rng, n))))
     return sc
 
 
